@@ -1,4 +1,5 @@
 """All sidecar contracts."""
-from . import ast_utils, defaults_utils, docstring_parsers, pure_utils
+from . import ast_utils, conformance, defaults_utils, docstring_parsers, pure_utils
 
-ALL_CONTRACTS = pure_utils.CONTRACTS + defaults_utils.CONTRACTS + docstring_parsers.CONTRACTS + ast_utils.CONTRACTS
+ALL_CONTRACTS = (pure_utils.CONTRACTS + defaults_utils.CONTRACTS + docstring_parsers.CONTRACTS + ast_utils.CONTRACTS
+                 + conformance.CONTRACTS)
